@@ -108,7 +108,7 @@ def ob_gate_tp(sys):
     def run(I):
         from quara.objects import gate as G
         c = qenv.csys(sys)
-        B = qenv.dense_basis(c) if sys in ("Q1u", "Q1h", "Q1x") else basis_of(sys)
+        B = qenv.dense_basis(c) if sys in ("Q1u", "Q1h", "Q1x", "Q2x") else basis_of(sys)
         hs = mat_of(I, "h", n, n)
         g = mk_gate(c, hs)
         atol = I["atol"]
@@ -400,7 +400,7 @@ def obligations(tier):
     lin = tiers(tier, ["Q1", "T1"], ["Q1", "T1", "Q2", "QT"])
     out += specs("C01.state.eq", [{"sys": s, "default": dflt} for s in lin for dflt in (False, True)], ob_state_eq)
     out += specs("C01.povm.eq", [{"sys": s, "m": m} for s in tiers(tier, ["Q1", "T1"], ["Q1", "T1", "Q2"]) for m in tiers(tier, [2, 3], [2, 3, 4])], ob_povm_eq, 2)
-    out += specs("C01.gate.tp", [{"sys": s} for s in tiers(tier, ["Q1", "T1", "Q1u", "Q1h", "Q1x"], ["Q1", "T1", "Q2", "Q1u", "Q1h", "Q1x"])], ob_gate_tp, 2)
+    out += specs("C01.gate.tp", [{"sys": s} for s in tiers(tier, ["Q1", "T1", "Q1u", "Q1h", "Q1x", "Q2x"], ["Q1", "T1", "Q2", "Q1u", "Q1h", "Q1x", "Q2x"])], ob_gate_tp, 2)
     out += specs("C01.mprocess.sumtp", [{"sys": s, "m": m} for s in tiers(tier, ["Q1"], ["Q1", "T1"]) for m in tiers(tier, [2, 3], [2, 3, 4])], ob_mprocess_sumtp, 2)
     for s in tiers(tier, ["Q1", "T1"], ["Q1", "T1", "Q2", "QT"]):
         names = [nm for nm, _ in refs.unitary_library(DIMS[s])]
